@@ -4,6 +4,7 @@ from typing import Dict, List, Optional, Set, Tuple
 
 from ..loader import AnalysisError, norm_stmt, walk_own, FuncInfo
 from .common import check as ob
+from ..canon import Canon
 
 EXPLANATION = (
     'For the call graph rooted at parse(): every operation that can raise is an obligation discharged by a rule -- '
@@ -525,7 +526,7 @@ def terminal_raise(ctx, rep, clause):
 
 # ---------------------------------------------------------------------------------------------------------
 # (d) loop progress
-def _progress_paths(stmts, advancing) -> List[ast.AST]:
+def _progress_paths(stmts, advancing, cursors=()) -> List[ast.AST]:
     """returns the statements at which a path through `stmts` ends without progress (empty = every path
     advances the cursor, returns, raises or breaks)"""
     if not stmts:
@@ -535,24 +536,26 @@ def _progress_paths(stmts, advancing) -> List[ast.AST]:
         return []
     if isinstance(st, ast.Continue):
         return [st]
-    if _advances(st, advancing):
+    if _advances(st, advancing, cursors):
         return []
     if isinstance(st, ast.If):
-        return _progress_paths(list(st.body) + rest, advancing) + _progress_paths(list(st.orelse) + rest, advancing)
+        return _progress_paths(list(st.body) + rest, advancing, cursors) + _progress_paths(list(st.orelse) + rest, advancing, cursors)
     if isinstance(st, ast.Try):
-        return _progress_paths(list(st.body) + rest, advancing)
+        return _progress_paths(list(st.body) + rest, advancing, cursors)
     if isinstance(st, ast.For):
-        if _advances(ast.Expr(value=st.iter), advancing):
+        if _advances(ast.Expr(value=st.iter), advancing, cursors):
             return []
-        return _progress_paths(rest, advancing)
-    return _progress_paths(rest, advancing)
+        return _progress_paths(rest, advancing, cursors)
+    return _progress_paths(rest, advancing, cursors)
 
 
-def _advances(st, advancing) -> bool:
+def _advances(st, advancing, cursors=()) -> bool:
+    """cursors: the local names the enclosing loop test reads (a helper parser's own position variable)"""
     if isinstance(st, (ast.If, ast.For, ast.While, ast.Try)):
         return False
     for n in ast.walk(st):
-        if isinstance(n, ast.AugAssign) and norm_stmt(n.target) in ('self.position', 'position', 'i'):
+        if isinstance(n, ast.AugAssign) and isinstance(n.op, ast.Add) and \
+                (norm_stmt(n.target) == 'self.position' or norm_stmt(n.target) in cursors):
             return True
         if isinstance(n, ast.Call) and isinstance(n.func, ast.Attribute) and isinstance(n.func.value, ast.Name) and \
                 n.func.value.id == 'self' and n.func.attr in advancing:
@@ -586,8 +589,9 @@ def loop_progress(ctx, rep, clause):
         for node in walk_own(f.node):
             if isinstance(node, ast.While):
                 n += 1
-                stuck = _progress_paths(list(node.body), set())
-                ob(rep, 'EXC-progress', fq, f'loop `while {norm_stmt(node.test)[:50]}` makes progress on every path',
+                cursors = {x.id for x in ast.walk(node.test) if isinstance(x, ast.Name)} - {p_.name for p_ in f.params}
+                stuck = _progress_paths(list(node.body), set(), cursors)
+                ob(rep, 'EXC-progress', fq, f'loop `while {Canon(f.node).text(node.test)[:50]}` makes progress on every path',
                    not stuck, 'every path advances or leaves', 'a path through the loop body does not advance',
                    f.loc(node), clause)
     rep.floor('EXC-progress', 'cursor loops', n, 9)
@@ -609,11 +613,12 @@ def loop_progress(ctx, rep, clause):
     if ok:
         parts = ret_guards[0].values if isinstance(ret_guards[0], ast.BoolOp) else [ret_guards[0]]
         mid_tests = {}
+        cm, cs = Canon(middle.node), Canon(start.node)
         for node in walk_own(middle.node):
             if isinstance(node, ast.If):
-                mid_tests[norm_stmt(node.test)] = node
+                mid_tests[cm.text(node.test)] = node
         for part in parts:
-            t = norm_stmt(part)
+            t = cs.text(part)
             node = mid_tests.get(t)
             if node is None or _progress_paths(list(node.body), ADVANCERS):
                 consumed = False
